@@ -124,8 +124,21 @@ func main() {
 
 // ---- library call helpers ----
 
+// reusedOpts is one caller-owned Options object that is re-filled for every
+// other call (callers do reuse option objects); the rest get fresh ones.
+var (
+	reusedOpts  = &ed25519.Options{}
+	optsCounter int
+)
+
 func libOpts(v ref.Variant, zip bool) *ed25519.Options {
-	o := &ed25519.Options{ZIP215Verify: zip}
+	optsCounter++
+	o := &ed25519.Options{}
+	if optsCounter%2 == 0 {
+		o = reusedOpts
+		*o = ed25519.Options{}
+	}
+	o.ZIP215Verify = zip
 	if v.Ph {
 		o.Hash = crypto.SHA512
 	}
